@@ -195,6 +195,11 @@ Definition follows (G : gram) : lenv :=
   let bound := S (length (prods G)) * (2 + length (terms G)) + 2 in
   fix_size bound lenv_size (follow_pass (nullables G) (firsts G) (prods G)) [(start G, [None])].
 
+(** the FOLLOW iteration reached its fixpoint within its fuel: one more pass adds nothing
+    (evaluated on every grammar by the check; hypothesis of the chain theorem) *)
+Definition follow_fix_ok (G : gram) : bool :=
+  Nat.eqb (lenv_size (follow_pass (nullables G) (firsts G) (prods G) (follows G))) (lenv_size (follows G)).
+
 (** ** The SLR(1) table with action sets, before and after ResolveConflicts *)
 
 Record raw_table := mkRaw {
